@@ -33,6 +33,14 @@ func NewGen(seed int64, profile string) *Gen {
 		g.stepNo = 3
 		return g
 	}
+	if strings.HasPrefix(profile, "fanout") {
+		n := 230
+		fmt.Sscanf(profile, "fanout%d", &n)
+		g.Scenario = "fanout"
+		g.script = fanoutScript(n)
+		g.stepNo = 3
+		return g
+	}
 	if strings.HasPrefix(profile, "bulk") {
 		n := 520
 		fmt.Sscanf(profile, "bulk%d", &n)
